@@ -424,6 +424,7 @@ class FailPos:
         if case["faults"] == "all":
             for k in range(K):
                 plans.append({"kind": "fail_at", "k": k, "rc": 128})
+                plans.append({"kind": "fail_at", "k": k, "rc": 1, "realistic": True})
                 plans.append({"kind": "enoent_at", "k": k})
             plans.append({"kind": "missing_binary"})
             for which in ("pre", "post"):
@@ -457,7 +458,7 @@ class FailPos:
                 continue
             fired = [e for e in res.events if e.get("fault")]
             if fired:
-                ctx.fault("vcs_%s_%s" % (fp["kind"], fired[0]["role"]), len(fired))
+                ctx.fault("vcs_%s%s_%s" % (fp["kind"], "_realistic" if fp.get("realistic") else "", fired[0]["role"]), len(fired))
                 ctx.nontriv((case["point"], fp["kind"], fp.get("k")))
                 ctx.transition((fired[0]["role"], fp["kind"], res.exit_code))
             before = len(ctx.violations)
@@ -476,6 +477,7 @@ class FailPos:
             cands = []
             for k in range(40):
                 cands.append([{"kind": "fail_at", "k": k, "rc": 128}])
+                cands.append([{"kind": "fail_at", "k": k, "rc": 1, "realistic": True}])
                 cands.append([{"kind": "enoent_at", "k": k}])
             cands.append([{"kind": "missing_binary"}])
             for which in ("pre", "post"):
